@@ -20,6 +20,7 @@ PLAN = {  # tier -> number of generated applications per class
     "thorough": {"free": 120, "inclass": 120},
 }
 BATCH = 40  # modules per workspace
+OPTIONAL_GENERATORS = [("gen_routes", "r"), ("gen_scopes", "s"), ("gen_errors", "e")]
 
 
 def _tool_hash():
@@ -73,20 +74,23 @@ def build_programs(R):
                 continue
             spec["klass"] = "planted:" + rule
             progs.append({"name": name, "klass": "planted:" + rule, "spec": spec, "src": gen_app.render(spec)})
-    # C07: applications with rich route tables (tools/gen_routes.py, if present)
-    try:
-        import gen_routes
-    except ImportError:
-        gen_routes = None
-    if gen_routes is not None:
-        rrng = random.Random(R.seed * 15485863 + (5 if R.tier == "quick" else 6))
-        for j in range(gen_routes.plan(R.tier)):
-            name = "r%d" % j
-            spec = gen_routes.make(rrng, name)
+    # further application families, each in its own optional module tools/<mod>.py exposing
+    # plan(tier) -> int, make(rng, name) -> spec | None (spec["klass"] names the family) and, optionally,
+    # request_script(spec) -> [requests] for the runtime stage
+    for k, (modname, prefix) in enumerate(OPTIONAL_GENERATORS):
+        try:
+            mod = __import__(modname)
+        except ImportError:
+            continue
+        xrng = random.Random(R.seed * 15485863 + 10 * k + (5 if R.tier == "quick" else 6))
+        for j in range(mod.plan(R.tier)):
+            name = "%s%d" % (prefix, j)
+            spec = mod.make(xrng, name)
             if spec is None:
                 continue
-            spec["klass"] = "routes"
-            progs.append({"name": name, "klass": "routes", "spec": spec, "src": gen_app.render(spec)})
+            spec.setdefault("klass", modname[4:])
+            spec["generator"] = modname
+            progs.append({"name": name, "klass": spec["klass"], "spec": spec, "src": gen_app.render(spec)})
     return progs
 
 
@@ -195,9 +199,10 @@ def snapshot(paths):
 
 def request_script(spec):
     """Scripted requests for one generated application (C03-C07)."""
-    if spec.get("klass") == "routes":
-        import gen_routes
-        return gen_routes.request_script(spec)
+    if spec.get("generator"):
+        mod = __import__(spec["generator"])
+        if hasattr(mod, "request_script"):
+            return mod.request_script(spec)
     m = spec["name"]
     reqs = []
     fallible = ["%s.c%d" % (m, c["i"]) for c in spec["ctors"] if c["fallible"]] + \
